@@ -219,9 +219,17 @@ class Connection(ExportImport):
         assert obj._p_oid is None
         oid = obj._p_oid = oid
         obj._p_jar = self
+        try:
+            self._register(obj)
+        except:  # noqa: E722 do not use bare 'except'
+            # The transaction does not let us in (it has failed and is
+            # not aborted yet; there is none, in explicit mode): the
+            # object has not been added.
+            del obj._p_jar
+            del obj._p_oid
+            raise
         if self._added_during_commit is not None:
             self._added_during_commit.append(obj)
-        self._register(obj)
         # Add to _added after calling register(), so that _added
         # can be used as a test for whether the object has been
         # registered with the transaction.
